@@ -22,6 +22,11 @@ XIsPrefix(a, b) == Len(a) <= Len(b) /\ SubSeq(b, 1, Len(a)) = a
 RECURSIVE XReachDown(_,_,_)
 XReachDown(N, k, S) == IF k = 0 THEN S ELSE XReachDown(N, k - 1, IF k \in S THEN S \cup XSetOf(N[k].prems) ELSE S)
 XReach(N, n) == XReachDown(N, n, {n})
+\* the nodes in the order a depth-first walk from n (premises left to right) finishes them; a canonical numbering of the DAG
+RECURSIVE XPost(_,_,_), XPostPrems(_,_,_,_)
+XPost(N, n, acc) == IF n \in XSetOf(acc) THEN acc ELSE Append(XPostPrems(N, n, 1, acc), n)
+XPostPrems(N, n, k, acc) == IF k > Len(N[n].prems) THEN acc ELSE XPostPrems(N, n, k + 1, XPost(N, N[n].prems[k], acc))
+XPostOrder(N, root) == XPost(N, root, <<>>)
 XGaps(N, root) == { N[n].th : n \in { m \in XReach(N, root) : N[m].rule = "sorry" } }
 XWellFormed(N) == \A n \in 1..Len(N) : \A k \in 1..Len(N[n].prems) : N[n].prems[k] \in 1..(n - 1)
 
@@ -74,8 +79,9 @@ XFaithful(L, N, root) == \A i \in 1..Len(L) : \E n \in XReach(N, root) : N[n].ru
 \* (c) one sub-derivation = one line: never two lines with the same rule, argument and citations
 XSharedOnce(L) == \A i \in 1..Len(L) : \A j \in (i + 1)..Len(L) :
                      ~(L[i].rule = L[j].rule /\ L[i].arg = L[j].arg /\ L[i].prevs = L[j].prevs /\ L[i].th = L[j].th)
-\* (b) gaps: every sorry line is a gap of the proof term with that sequent; no gap of the proof term is lost: it is a sorry
-\* line, or (absorbed) another derivation of the same sequent was exported first and is cited instead
+\* (b) gaps: every sorry line is a gap of the proof term with that sequent (no invented gap).  The converse is NOT what the code
+\* does and is not required: a gap whose sequent already has a line (another derivation of it came first), or that lies below
+\* a node whose sequent already has a line, is absorbed - the exported proof then has fewer gaps than ProofTerm.gaps (XAbsorbed)
 XSorryThs(L) == { L[i].th : i \in { j \in 1..Len(L) : L[j].rule = "sorry" } }
 XThs(L) == { L[i].th : i \in 1..Len(L) }
 XNoInventedGap(L, N, root) == XSorryThs(L) \subseteq XGaps(N, root) /\ \A i \in 1..Len(L) : L[i].rule = "sorry" => L[i].prevs = <<>>
